@@ -744,12 +744,20 @@ bool WPA2Decrypter::decrypt(PDU& pdu) {
         Dot11Data* data = pdu.find_pdu<Dot11Data>();
         RawPDU* raw = pdu.find_pdu<RawPDU>();
         if (data && raw && data->wep()) {
+            // Frames coming from the DS are protected with the keys of the receiving
+            // station (addr3 is only the original source, possibly another station of
+            // the same BSS with its own keys): search (bssid, dst_addr) first for them
+            const bool from_ds = data->from_ds() && !data->to_ds();
             // search for the tuple (bssid, src_addr)
-            keys_map::const_iterator it = keys_.find(extract_addr_pair(*data));
+            keys_map::const_iterator it = keys_.find(
+                from_ds ? extract_addr_pair_dst(*data) : extract_addr_pair(*data)
+            );
             
             // search for the tuple (bssid, dst_addr) if the above didn't work
             if (it == keys_.end()) {
-                it = keys_.find(extract_addr_pair_dst(*data));
+                it = keys_.find(
+                    from_ds ? extract_addr_pair(*data) : extract_addr_pair_dst(*data)
+                );
             }
             if (it != keys_.end()) {
                 SNAP* snap = it->second.decrypt_unicast(*data, *raw);
